@@ -21,6 +21,7 @@ type crashSnap struct {
 	site   string
 	io     uint64
 	torn   string // file whose tail was cut ("" = none)
+	ack    bool   // taken after an acknowledged call: only the state after the step is acceptable
 	before *modelAt
 	after  *modelAt
 }
@@ -107,6 +108,10 @@ func (c *crasher) ioHook(site string, n uint64) {
 	if c.disabled || len(c.snaps) >= c.s.plan.CrashMax {
 		return
 	}
+	simrt.WithoutFsizeLimit(func() { c.ioHook1(site, n) })
+}
+
+func (c *crasher) ioHook1(site string, n uint64) {
 	sig := treeSig(c.s.dirs.Base, false)
 	if sig == c.lastSig {
 		return
@@ -208,6 +213,9 @@ func (c *crasher) restartAll() {
 			sn.after = c.models[sn.step+1]
 		} else {
 			sn.after = sn.before
+		}
+		if sn.ack {
+			sn.before = sn.after
 		}
 		if sn.before == nil {
 			continue
@@ -598,4 +606,29 @@ func (o *oracles) laterModels(m *modelAt) []*modelAt {
 		}
 	}
 	return []*modelAt{m}
+}
+
+// afterWriteFaultAPI: an API call ran while the disk was full. If the call
+// was acknowledged (no error) what it changed must survive a kill right now;
+// if it returned an error nothing is claimed about it, and because the
+// in-memory state may then be ahead of the disk no further kill states of
+// this run are judged.
+func (o *oracles) afterWriteFaultAPI(op Op, r OpResult) {
+	c := o.s.crash
+	if c == nil || c.disabled {
+		return
+	}
+	if r.Err != "" {
+		c.disabled = true
+		o.durabilityUnknown = true // also for clean restarts: Close does not save
+		o.s.res.Count("probe_api_rejected_under_disk_full", 1)
+		return
+	}
+	o.s.res.Count("probe_api_acknowledged_under_disk_full", 1)
+	n := len(c.snaps)
+	c.lastSig = ""
+	c.take("after the acknowledged call "+op.K+" made while the disk was full", simrt.IOCount(), "", 0, 0)
+	for _, sn := range c.snaps[n:] {
+		sn.ack = true
+	}
 }
